@@ -282,6 +282,8 @@ def run_one(job):
     """job: dict(api, feats, payload_at, cli) -> dict(msgs=[(sig, what)], spec, ...)"""
     flex = build.get_flex()
     api, feats, payload_at, cli = job["api"], set(job["feats"]), job.get("payload_at"), job.get("cli", [])
+    if payload_at is not None:
+        payload_at = tuple(payload_at)
     S = build_spec(api, feats, payload_at)
     wd = H.mkscratch("c20")
     res = {"msgs": [], "spec": S.text(), "nprobes": 0}
@@ -477,7 +479,7 @@ def run(tier):
             else:
                 full = "C20:%s:%s" % (sig, j["api"])
                 what = "[%s, layout %s %s] %s" % (j["api"], "+".join(j["feats"]) or "(plain)", " ".join(j.get("cli", [])), what)
-            ck.violation(full, what, files={"p.l": res["spec"]}, case={"job": j})
+            ck.violation(full, what, files={"p.l": res["spec"]}, case={"job": j}, replay={"module": "vflib.checks.c20", "func": "run_one", "args": j, "tuple": False})
         if not res["msgs"]:
             pa_ = j.get("payload_at")
             distinct.add(("P",) + tuple(pa_) if pa_ else ("L", tuple(sorted(j["feats"]))))
